@@ -14,9 +14,8 @@ def run(tier, only=None):
     sks = families.c16_base_families(quick)
     if only:
         sks = [s for s in sks if fnmatch.fnmatch(s.name, only)]
-    rep.add(eng.run_family(sks))
     te = tok.TokEngine("C16", tier)
-    n_case, n_blank, n_comment, n_skip = (28, 16, 24, 40) if quick else (64, 24, 40, 40)
+    n_case, n_blank, n_comment, n_skip = (28, 14, 20, 40) if quick else (64, 24, 40, 40)
     units = [("c16.case", ["-DMODE_CASE", "-DNMAX=%d" % n_case]),
              ("c16.blank", ["-DMODE_BLANK", "-DNMAX=%d" % n_blank]),
              ("c16.comment_crlf", ["-DMODE_COMMENT", "-DNMAX=%d" % n_comment]),
@@ -44,7 +43,8 @@ def run(tier, only=None):
         return te.unit(u[0], "tok_filter.c", defs=u[1], replace=LTI, unwind=110, checks="default", timeout=700 if quick else 3000,
                        unwindset={"strstr.0": 110, "strstr.1": 110, "strlen.0": 110, "strchr.0": 110},
                        replay_fn=confirm(mode) if mode else None)
-    rep.add(core.pmap(ujob, units))
+    # one pool: the filter-level units (long) first, then the number-base pairs
+    rep.add(core.pmap_mixed([(ujob, u) for u in units] + [(lambda sk: eng.run_family([sk])[0], sk) for sk in sks]))
     return rep.finish(
         {"symbolic_per_query": "case: a line of up to %d arbitrary printable characters with an arbitrary subset of its letters case-flipped; blank: a line of up to %d characters with spaces/tabs inserted at arbitrary places before the mnemonic and after the first separator; comment: arbitrary trailing ';' comment and LF vs CRLF; skip_lines: arbitrary label / section / global lines followed by an instruction; base: the same symbolic value written in hexadecimal, in decimal and with leading zeros (immediates, displacements, branch targets) on two instances with the same options" % (n_case // 2, n_blank // 2),
          "lemma": "L-filter: the tokenizer receives the same string for both spellings, and line_to_instr sees nothing else of the raw text; hence identical bytes"},
